@@ -384,7 +384,7 @@ func (c *Case) Source() string {
 			case "sq":
 				b.WriteString("'" + p.Text + "'")
 			case "dq":
-				b.WriteString(`"` + p.Text + `"`)
+				b.WriteString(`"` + strings.NewReplacer(`\`, `\\`, `"`, `\"`, "$", `\$`, "`", "\\`").Replace(p.Text) + `"`)
 			case "var":
 				b.WriteString("$o")
 			case "assign":
